@@ -18,6 +18,7 @@ func init() {
 					{Name: "eth-FX+usdt-calls", Spec: &bridge.Spec{Prop: "C05", Chains: []string{"eth"}, Tokens: []string{"FX", "usdt"}, Book: true, Calls: true, MaxSend: 3}, Depth: 7, ShardDepth: 2},
 					{Name: "bsc-usdt+tok-evm", Spec: &bridge.Spec{Prop: "C05", Chains: []string{"bsc"}, Tokens: []string{"usdt", "tok"}, Book: true, EVM: true, MaxSend: 3}, Depth: 6, ShardDepth: 2},
 					{Name: "batch-life-cycle-deep", Spec: &bridge.Spec{Prop: "C05", Chains: []string{"eth"}, Tokens: []string{"FX", "usdt"}, Book: true, Ledger: true, MaxSend: 4, Focus: "batches"}, Depth: 9, ShardDepth: 2},
+					{Name: "pool-larger-than-a-batch", Spec: &bridge.Spec{Prop: "C05", Chains: []string{"eth"}, Tokens: []string{"FX"}, Book: true, Ledger: true, MaxSend: 102, Prefill: 99, Focus: "batches"}, Depth: 6, ShardDepth: 2},
 					{Name: "tron-FX", Spec: &bridge.Spec{Prop: "C05", Chains: []string{"tron"}, Tokens: []string{"FX"}, Book: true, Calls: true, MaxSend: 4}, Depth: 8, ShardDepth: 2},
 				}
 			}
@@ -25,6 +26,8 @@ func init() {
 				{Name: "eth-FX+usdt-calls", Spec: &bridge.Spec{Prop: "C05", Chains: []string{"eth"}, Tokens: []string{"FX", "usdt"}, Book: true, Calls: true, MaxSend: 3}, Depth: 5, ShardDepth: 2},
 				{Name: "eth-usdt-evm", Spec: &bridge.Spec{Prop: "C05", Chains: []string{"eth"}, Tokens: []string{"usdt"}, Book: true, EVM: true, MaxSend: 2}, Depth: 5, ShardDepth: 2},
 				{Name: "batch-life-cycle-deep", Spec: &bridge.Spec{Prop: "C05", Chains: []string{"eth"}, Tokens: []string{"FX", "usdt"}, Book: true, Ledger: true, MaxSend: 3, Focus: "batches"}, Depth: 7, ShardDepth: 2},
+				// 99 transfers wait in the pool; two more sends make it more than one batch (100 entries) can take
+				{Name: "pool-larger-than-a-batch", Spec: &bridge.Spec{Prop: "C05", Chains: []string{"eth"}, Tokens: []string{"FX"}, Book: true, Ledger: true, MaxSend: 101, Prefill: 99, Focus: "batches"}, Depth: 4, ShardDepth: 1},
 			}
 		},
 	})
